@@ -396,11 +396,15 @@ Definition commit_to_proto (c : commit) : p_commit :=
              (c_change_id c) (c_description c) (c_author c) (c_committer c).
 
 (** MergeBuilder::build / Merge::from_vec assert an odd number of terms. *)
+(** ConflictLabels::from_vec / from_merge (conflict_labels.rs:36-56): no labels, a single
+    label, or only empty labels all mean "unlabeled" = resolved "". *)
+Definition labels_from_vec (ls : list bytes) : list bytes :=
+  if is_nil_b ls || is_resolved ls || forallb is_nil_b ls then [[]] else ls.
 Definition commit_from_proto (p : p_commit) : rout :=
   if Nat.even (length (pc_root_tree p)) then RPanic
   else if negb (is_nil_b (pc_labels p)) && Nat.even (length (pc_labels p)) then RPanic
   else ROk (mk_commit (pc_parents p) (pc_predecessors p) (pc_root_tree p)
-                      (if is_nil_b (pc_labels p) then [[]] else pc_labels p)
+                      (labels_from_vec (pc_labels p))
                       (pc_change_id p) (pc_description p) (pc_author p) (pc_committer p)).
 
 (** ContentHash of [Commit] (derive: fields in declaration order; secure_sig = None). *)
@@ -440,12 +444,18 @@ Definition padded_nameb (c : commit) : bool :=
         && bytes_eqb (trim (s_email (c_author c))) (s_email (c_author c))
         && bytes_eqb (trim (s_name (c_committer c))) (s_name (c_committer c))
         && bytes_eqb (trim (s_email (c_committer c))) (s_email (c_committer c))).
-(** The commits the property quantifies over: Commit's own invariants and a non-empty change
-    id (jj's change ids have 16 bytes; an empty one is replaced by a synthetic id on read). *)
-Definition simple_domainb (c : commit) : bool :=
+(** The commits the property quantifies over: Commit's own invariants and, for the Git
+    backend, a non-empty change id (jj's change ids have 16 bytes; an empty one is replaced
+    by a synthetic id on read). *)
+Definition base_domainb (c : commit) : bool :=
   labels_okb c && Nat.odd (length (c_root_tree c)).
 Definition git_domainb (c : commit) : bool :=
-  simple_domainb c && negb (is_nil_b (c_change_id c)).
+  base_domainb c && negb (is_nil_b (c_change_id c)).
+(** The simple backend goes through ConflictLabels, for which labels that are all empty are
+    no labels: unresolved labels must have a non-empty term. *)
+Definition labels_canonb (c : commit) : bool :=
+  is_resolved (c_labels c) || negb (forallb is_nil_b (c_labels c)).
+Definition simple_domainb (c : commit) : bool := base_domainb c && labels_canonb c.
 (** The two classes on which the Git backend is known to violate the property. *)
 Definition known_classb (c : commit) : bool := placeholder_nameb c || padded_nameb c.
 
